@@ -25,10 +25,15 @@ def Scalar.decl : Scalar → FieldDecl
 def Coll.anyDecl : Coll → FieldDecl
   | .list => .seqAny .list {} | .deque => .seqAny .deque {}
   | .set => .setAny false {} | .frozenset => .setAny true {}
+  /- not a documented spelling (`Tuple` requires `items`; all bare tuple forms raise TypeError): a
+     placeholder, excluded from `supported` and `documentedSp` -/
+  | .tuple => .tupleOf .anything false
 
 def Coll.ofDecl : Coll → FieldDecl → FieldDecl
   | .list, d => .seqOf .list d {} | .deque, d => .seqOf .deque d {}
   | .set, d => .setOf false d {} | .frozenset, d => .setOf true d {}
+  /- "The following define a tuple of any number of Integers: Tuple[Integer]" -/
+  | .tuple, d => .tupleOf d false
 
 /-- the Field a type expression stands for -/
 def denote : Sp → FieldDecl
@@ -71,7 +76,8 @@ def mkAlt : AltForm → Sp → Sp → Sp
 
 /-- The equivalences of the statement, closed under congruence (any nesting depth):
     `int ~ Integer ~ Integer()`; `list ~ List ~ Array ~ Array()`;
-    `list[T] ~ List[T] ~ Array[T] ~ Array(items=T)` (same for set / frozenset / deque);
+    `list[T] ~ List[T] ~ Array[T] ~ Array(items=T)` (same for set / frozenset / deque, and for the
+    single-argument tuple forms `tuple[T] ~ typing.Tuple[T] ~ Tuple[T] ~ Tuple(items=T)`);
     `dict[K, V] ~ Dict[K, V] ~ Map[K, V] ~ Map(items=[K, V])`;
     `Optional[T] ~ Union[T, None] ~ AnyOf[T, None] ~ T | None`; `A | B ~ Union[A, B] ~ AnyOf[A, B]`. -/
 inductive SameMeaning : Sp → Sp → Prop where
@@ -130,7 +136,7 @@ def distinctObjs (tm : TypeMap) (x y : Sp) : Bool :=
 def supported (tm : TypeMap) : Sp → Bool
   | .builtin _ | .fcls _ | .finst _ | .lit _ _ => true
   | .noneLit => false
-  | .bareBuiltin _ | .bareTyping _ | .bareCls _ | .bareInst _ => true
+  | .bareBuiltin c | .bareTyping c | .bareCls c | .bareInst c => c != .tuple
   | .pep585 _ x | .typingG _ x | .sub _ x => supported tm x
   | .call _ x => supported tm x && isFieldExpr x
   | .dictBare | .tDictBare | .mapBare | .mapInst => true
@@ -197,7 +203,7 @@ def fieldSupported (O : Oracles) (tm : TypeMap) (_future : Bool) (fs : FieldSp) 
 def documentedSp : Sp → Bool
   | .builtin _ | .fcls _ | .finst _ | .lit _ _ => true
   | .noneLit => false
-  | .bareBuiltin _ | .bareTyping _ | .bareCls _ | .bareInst _ => true
+  | .bareBuiltin c | .bareTyping c | .bareCls c | .bareInst c => c != .tuple
   | .pep585 _ x | .typingG _ x | .sub _ x => documentedSp x
   | .call _ x => documentedSp x && isFieldExpr x
   | .dictBare | .tDictBare | .mapBare | .mapInst => true
